@@ -74,6 +74,11 @@ CHECKS = {
    text="On every history of <= 4 (quick) / <= 6 (thorough) records in 1-7 files (buffered and synced writes, all rotation points, total-size removal, restarts, process crashes) the real BaseWAL returns exactly the written messages, in order, across files; SearchForEndHeight finds a marker iff it is on disk (for markers written in increasing height order, as the consensus writer does; otherwise the known finding F-wal-search-nonincreasing applies) and positions the reader behind it. Every single damage (checksum, payload, length smaller / larger / above the limit, every cut region, garbage), realised at every byte offset and bit on sampled logs, yields the specified prefix followed by EOF or DataCorruptionError: never another message, a panic, or a payload buffer above maxMsgSizeBytes, and repairWalFile keeps exactly the longest valid prefix. Invariants checked by TLC: OrderKept, Durable, ReadExact, FlipsReported, RepairExact, SearchSound/Det/Complete, SyncIsDurable. Thorough tier: also traces of large seeded random logs with multi-byte corruption.",
    note="Trusted: TLC, the driver's byte arithmetic and field rendering; CRC-32C detection beyond 32-bit bursts and no payload containing a valid frame at a desynchronised offset (probabilistic); damage is isolated; a process crash is modelled, not a power failure; the 40 KiB bufio buffer never spills in the drivers; heights >= 0. Disagreements where the statement allows both results (EOF vs corruption error) are infrastructure results (exit 2), never a violation. Not covered: the real ticker goroutine, fsync / power-loss semantics, records >= 40 KiB, more than two damages.",
    ref="§4-C15"),
+ "C09": dict(
+   engine="txexec", category="model_checking", technique="TLA+ specification (TxExec.tla: ApplyTransaction pipeline, KVM frame rules, commitBlock / Process loops) model-checked with TLC (the statement is an action property evaluated on every transition); seeded real blocks validated event by event by TLC (TxExecTrace.tla); every plain-mode model transition replayed at real scale",
+   text="TxExec.tla transcribes the ApplyTransaction pipeline (checks, buyGas, intrinsic gas, execute, refund, pay coinbase, finalise) and the frame rules of the KVM incl. snapshot on entry and restore on failure, plus one iteration of the commitBlock loop and StateProcessor.Process. TLC checks Conservation, GasBounds, PoolExact, NonceStep, RejectedIsNoOp as an action property on every transition (every small transaction against every bytecode behaviour of up to 3 frame events quick / 4 thorough, blocks of up to 3-4 transactions); the unchanged-pool variant and five reachability companions must be violated. Binding: 10^4 (quick) / 1.8*10^5 (thorough) events from seeded real blocks (grammar-generated bytecode, every reject class at its exact threshold) through the real ApplyTransaction, commitBlock and Process are explained by TxExecTrace.tla from logged inputs only, with the sum over ALL accounts of the state trie included; every plain-mode model transition is replayed at real scale through ApplyTransaction and commitBlock.",
+   note="Trusted: TLC, the KVM tracer (cross-checked against the untraced commitBlock run of the same block), StateDB.Copy (C08), memorydb, the real IntrinsicGas taken as an input. Amounts below 2^30. Named deviations: value reaching an account after it self-destructed in the same transaction disappears with it (reference EVM behaviour; counted separately). Not covered: big-integer edge arithmetic, heights above 1, CREATE2 and inner CREATE collisions, precompiles other than identity, opcode gas costs (C10), mint and staking system calls.",
+   ref="§4-C09"),
 }
 
 NOT_YET = {
